@@ -210,9 +210,11 @@ def clientCase (hdr : String) (lines : List String) : List String :=
                ([Cl.CState.disconnected, .active, .asleep, .awake].find? fun x => cstateStr x == st).map
                  fun x => Spec.ClientSpec.CE.out t (.state x)
              | "done" :: _ => some (Spec.ClientSpec.CE.out t (.done .ok))
-             | "handler" :: f :: tp :: _ =>
+             | "handler" :: f :: tp :: rest =>
+               let qos : Nat := ((rest.find? (·.startsWith "qos=")).bind fun w => (w.drop 4).toString.toNat?).getD 0
+               let payload : Bytes := ((rest.find? (·.startsWith "payload=")).bind fun w => parseHex (w.drop 8).toString).getD []
                (match parseHex (f.drop 7).toString, parseHex (tp.drop 6).toString with
-                | some fb, some tb => some (Spec.ClientSpec.CE.handlerRan t fb tb)
+                | some fb, some tb => some (Spec.ClientSpec.CE.handlerRan t fb tb qos payload)
                 | _, _ => none)
              | w :: _ => if w == "leak" || w == "panic" then some (Spec.ClientSpec.CE.note t txt) else none
              | [] => none)
@@ -222,7 +224,8 @@ def clientCase (hdr : String) (lines : List String) : List String :=
       let ms := mon "C17" (Spec.ClientSpec.c17 cfg tr) ++ mon "C23" (Spec.ClientSpec.c23 tr) ++
         mon "C31" (Spec.ClientSpec.c31 cfg tr) ++ mon "C28" (Spec.ClientSpec.c28 cfg tr tEnd) ++
         mon "C25" (Spec.ClientSpec.c25 tr) ++ mon "C27" (Spec.ClientSpec.c27 cfg tr) ++
-        mon "C33" (Spec.ClientSpec.c33 cfg tr tEnd) ++ mon "C06" (Spec.ClientSpec.c06 tr)
+        mon "C33" (Spec.ClientSpec.c33 cfg tr tEnd) ++ mon "C06" (Spec.ClientSpec.c06 tr) ++
+        mon "C16" (Spec.ClientSpec.c16 tr)
       d1 ++ d2 ++ d3 ++ ms
     | none, _ => [s!"BADLINE unparsable event in case {caseId}"]
     | _, none => [s!"BADLINE unparsable output in case {caseId}"]
